@@ -26,7 +26,7 @@ def config(rng, tier):
         "fault_rate": rng.choice([0.0, 0.1, 0.25, 0.4]),
         "derive": rng.choice([0.0, 0.05, 0.15]),
         "two": rng.random() < 0.3,
-        "maxn": rng.choice([8] * 16 + [24, 24, 40, 120]),
+        "maxn": rng.choice([8] * 32 + [24, 24, 24, 40, 40, 120, 120, 320]),
     }
 
 
